@@ -504,12 +504,17 @@ def _run(fb, rep, tier):
                     if n.k == 'BinaryOperator' and n.o == '=' and strip(n.kids[0]).k == 'MemberExpr' and strip(n.kids[0]).n == qn and rebinding(g, n):
                         reb.append((g, n))
                     elif n.is_call() and n.u:
+                        # a callee that assigns the member from one of its own PARAMETERS re-binds it only if the call hands it the
+                        # copy itself (`x->load(this)`); found through a second level of calls it proves nothing about the object handed in
+                        def from_param(hh):
+                            return render(wfun[hh.u][1].kids[1]).strip('()') in [pp[0] for pp in hh.params]
                         for h in fb.resolve(n):
                             if h.u in wfun:
-                                reb.append((h, wfun[h.u][1]))
+                                if not from_param(h) or any(render(strip(a_)).strip('()') == 'this' for a_ in n.args()):
+                                    reb.append((h, wfun[h.u][1]))
                             else:
                                 for m in h.nodes:
-                                    if m.is_call() and m.u in wfun:
+                                    if m.is_call() and m.u in wfun and not from_param(fb.funcs[m.u]):
                                         reb.append((fb.funcs[m.u], wfun[m.u][1]))
                 if reb:
                     break
@@ -533,20 +538,20 @@ def _run(fb, rep, tier):
                 for n in opeq.nodes:
                     if n.i <= first or not (n.is_call() and n.u):
                         continue
+                    # only a function that the root calls DIRECTLY counts here: deeper callees that happen to assign the member from one of
+                    # their parameters (SPxBasisBase::load(lp): theLP = lp) say nothing about which object they are handed
                     for h in fb.resolve(n):
                         if h.u in wfun and h.mk not in ('copyassign', 'copyctor'):
                             reb.append((h, wfun[h.u][1]))
-                        else:
-                            for m in h.nodes:
-                                if m.is_call() and m.u in wfun and fb.funcs[m.u].mk not in ('copyassign', 'copyctor'):
-                                    reb.append((fb.funcs[m.u], wfun[m.u][1]))
                     if reb:
                         break
         if not reb:
             # installable component (pricer, ratio tester, starter): the pointer is bound by the owner through a load(owner) member that
             # assigns it from its parameter; the copy path installs the cloned components through it (class-level argument)
+            # (only for the component base classes: anything reachable from operator= - since F28's repair also SPxBasisBase::load() behind
+            # unscaleLPandReloadBasis() - would otherwise pass as "bound through load(owner)")
             for g, n in wr:
-                if g.u in reach and g.cls == K2 and render(n.kids[1]).strip('()') in [pp[0] for pp in g.params]:
+                if re.search(r'::SPx(Pricer|RatioTester|Starter)<', K2) and g.u in reach and g.cls == K2 and render(n.kids[1]).strip('()') in [pp[0] for pp in g.params]:
                     reb.append((g, n))
                     break
         if reb:
